@@ -1,6 +1,6 @@
 (* C11 — complex-valued fields reproduce real-valued runs.  Model: model/Yee.v; lemmas: proofs/Yee_real.v, proofs/Yee_real_pml.v *)
 From Coq Require Import List Arith.
-From FV Require Import base.Scalar base.Cplx model.Yee proofs.Yee_steps proofs.Yee_real proofs.Yee_real_pml.
+From FV Require Import base.Scalar base.Cplx model.Yee proofs.Yee_steps proofs.Yee_real proofs.Yee_real_pml model.YeeFull proofs.Yee_full_props.
 Import ListNotations.
 
 (* For every scene of the pair model (any grid, widths, masks, iso/diagonal lossy materials, ANY list of CPML layers) whose ghost
@@ -14,3 +14,13 @@ Theorem C11_complex_stays_real : forall (K : Fld) (sc : scene K),
   realV K (fE (iterR K sc n s)) /\ realV K (fH (iterR K sc n s)).
 Proof. intros K sc G I n. exact (forward_real_pml_n K sc G I n). Qed.
 Print Assumptions C11_complex_stays_real.
+
+(* The fully anisotropic lossless tiers (model/YeeFull.v), PML-free scenes: real ghost factors, real source terms and real
+   initial E, H keep every imaginary part at zero for any number of steps. *)
+Theorem C11_full_tensor_complex_stays_real : forall (K : Fld) (sc : scene K), pmls K sc = [] ->
+  (realC K (hix K sc) /\ realC K (hiy K sc) /\ realC K (hiz K sc) /\ realC K (lox K sc) /\ realC K (loy K sc) /\ realC K (loz K sc)) ->
+  (forall t, realV K (injE K sc t) /\ realV K (injH K sc t)) ->
+  forall (ie9 im9 : option (T9 K)) n s, realV K (fE s) -> realV K (fH s) ->
+  realV K (fE (iterFR K sc ie9 im9 n s)) /\ realV K (fH (iterFR K sc ie9 im9 n s)).
+Proof. intros K sc Hp G I ie9 im9. exact (forward_full_real_n K sc Hp G I ie9 im9). Qed.
+Print Assumptions C11_full_tensor_complex_stays_real.
